@@ -289,6 +289,7 @@ for _h in HANDLERS:
         loop_locals=HANDLER_LOOP_LOCALS.get(_h, {}),
         inline=['Controller._send_hci_command_status'],
         note=f'{_kind} command class {_cls.__name__}',
+        solver_procs=1,
     )
 
 contract(
@@ -362,6 +363,7 @@ PACKET_COMMON = dict(
     ensures_names=PACKET_NAMES,
     modifies=CTL_MOD,
     fstrings='eval',
+    solver_procs=1,
 )
 
 for _kind in ('sync', 'async'):
